@@ -20,16 +20,16 @@ import (
 )
 
 func init() {
-	register(&Rule{ID: "T-PREC", Props: []string{"C10", "C01"}, Floor: 20,
+	register(&Rule{ID: "T-PREC", Props: []string{"C10", "C01"}, Floor: 7,
 		Doc: "Binding powers, obtained by interpreting the precedence function on every token constant (switch, table or map alike): | < || < && < comparisons < {+ -} < {* x / ÷ // %} < flatten < object wildcard < filter < dot < ! < {[ , [*]}; members of a level are equal; every other token has power 0.",
 		Run: ruleTPrec})
-	register(&Rule{ID: "T-INFIX", Props: []string{"C10", "C01", "C17", "C18", "C04", "C20", "C05"}, Floor: 40,
+	register(&Rule{ID: "T-INFIX", Props: []string{"C10", "C01", "C17", "C18", "C04", "C20", "C05"}, Floor: 28,
 		Doc: "One iteration of the operator loop for every token, by path enumeration: an operator is taken exactly when its power is strictly above the caller's (so equal powers associate to the left) or the caller forces the first selector; a binary operator consumes itself, parses its right operand at its own power and builds its own node from the untouched left and right operands; selectors call the projection parser with the powers of the specification and build the projection / prune / pipe nodes of the specification; the power compared on the next iteration is that of the then-current token; a token that is not an operator ends the expression returning the left operand unchanged.",
 		Run: ruleTInfix})
 	register(&Rule{ID: "T-PRIMARY", Props: []string{"C10", "C01", "C17", "C04", "C19", "C16", "C18", "C20"}, Floor: 25,
 		Doc: "Prefix position, by path enumeration of the primary-expression parser for every token: each token that can start an expression consumes exactly the tokens of its production and builds the node of the specification (unary operators parse their operand at the multiplicative / not power, wildcards, flatten and filter start projections that stop at the specified power, a parenthesised projection is closed, brackets choose index/slice on an integer or colon and a multi-select otherwise, an identifier followed by `(` is a function call); every other token is rejected.",
 		Run: ruleTPrimary})
-	register(&Rule{ID: "T-DELIMS", Props: []string{"C04", "C01", "C19", "C10"}, Floor: 12,
+	register(&Rule{ID: "T-DELIMS", Props: []string{"C04", "C01", "C19", "C10"}, Floor: 9,
 		Doc: "Bracketed constructs, by path enumeration of the filter, multi-select list, multi-select hash, let and top-level parsers: each accepts exactly `expr ]`, `expr {, expr} ]`, `key : expr {, key : expr} }`, `$v = expr {, $v = expr} in expr` and `expr <end>`; elements are parsed below every operator's power and stored in order under their keys.",
 		Run: ruleTDelims})
 }
@@ -347,7 +347,7 @@ func (rr *renderer) val(v AV) string {
 		}
 		var parts []string
 		for i := 0; i < x.n; i++ {
-			e, _ := rr.st.load(avPtr{x.o, fmt.Sprintf("[%d]", i)})
+			e, _ := rr.st.load(avPtr{x.o, x.path + fmt.Sprintf("[%d]", i)})
 			parts = append(parts, rr.val(e))
 		}
 		return "[" + strings.Join(parts, ",") + "]"
@@ -1143,4 +1143,105 @@ func literalHelpers(p *Program) map[string]*ssa.Function {
 		}
 	}
 	return out
+}
+
+// ---------------------------------------------------------------- T-LOOPS
+
+func init() {
+	register(&Rule{ID: "T-LOOPS", Props: []string{"C09", "C03", "C04"}, Floor: 3,
+		Doc: "Every loop of the parser ends at the end of the input, by path enumeration of each grammar function with its loops cut at the first back edge: on a path that goes round a loop, every token it consumed is pinned to a type, or at least known not to be the end token (the lexer returns the end token forever, so a loop that consumes `any token` never terminates on a truncated expression), and the path consumed something.",
+		Run: ruleTLoops})
+}
+
+func ruleTLoops(p *Program, r *Reporter) {
+	c := tpiSetup(p, r)
+	if c == nil {
+		return
+	}
+	d, rl := c.d, c.rl
+	type job struct {
+		fn     *ssa.Function
+		opaque map[*ssa.Function]bool
+	}
+	var jobs []job
+	var members []*ssa.Function
+	for m := range d.scc {
+		members = append(members, m)
+	}
+	sort.Slice(members, func(i, j int) bool { return members[i].Name() < members[j].Name() })
+	for _, m := range members {
+		if m == rl.function || d.wrapper[m] {
+			continue
+		}
+		reach := false
+		for _, cal := range staticCallees(rl.function) {
+			if cal == m {
+				reach = true // arity helpers are explored through the function-call parser below
+			}
+		}
+		if !reach {
+			jobs = append(jobs, job{m, nil})
+		}
+	}
+	jobs = append(jobs, job{rl.function, map[*ssa.Function]bool{d.exprFn: true}})
+	for _, j := range jobs {
+		fn := j.fn
+		name := "parser." + fn.Name()
+		e, st := d.start(fn)
+		if j.opaque != nil {
+			d.opaqueOnly = j.opaque
+			// the function-call parser is entered on `name (` (T-PRIMARY decides that)
+			d.SetToken(st, 1, "UnquotedIdentifierToken", nil)
+			d.SetToken(st, 2, "OpenParenToken", nil)
+		}
+		e.MaxVisits = 2 // two iterations: the first token of a loop is often pinned by the caller, the second is not
+		left := avSym{id: e.fresh(), tag: "left", nonNil: true}
+		outs := e.Run(fn, d.argsFor(fn, left, 0, false), st)
+		if e.Aborted != "" {
+			r.Unknown(fn.Pos(), name+" loops", "path enumeration aborted: "+e.Aborted)
+			continue
+		}
+		nCut := 0
+		bad := map[string]token.Pos{}
+		for _, o := range outs {
+			if !o.Cut {
+				continue
+			}
+			nCut++
+			items, _, _ := d.consumed(o.St)
+			if len(items) == 0 {
+				bad["goes round a loop without consuming anything"] = blockPos(o.CutBlock)
+				continue
+			}
+			for _, it := range items {
+				if it.Ev != nil || it.Type != "" {
+					continue
+				}
+				endExcluded := false
+				for _, x := range it.Excluded {
+					if x == "End" {
+						endExcluded = true
+					}
+				}
+				if !endExcluded {
+					bad["goes round the loop in "+o.CutBlock.Parent().Name()+" after consuming a token that may be the end of the input ("+patString(items)+")"] = blockPos(o.CutBlock)
+				}
+			}
+		}
+		if nCut == 0 {
+			continue
+		}
+		if len(bad) == 0 {
+			r.OK(fn.Pos(), name+" loops", fmt.Sprintf("%d paths go round a loop; each consumes only tokens that cannot be the end token", nCut))
+			continue
+		}
+		var ks []string
+		for k := range bad {
+			ks = append(ks, k)
+		}
+		sort.Strings(ks)
+		for _, k := range ks {
+			r.Bad(bad[k], name+" loops :: "+k, "at the end of a truncated expression the lexer keeps returning the end token: this loop never terminates")
+		}
+	}
 }
